@@ -17,8 +17,9 @@ BASE = "{BASE}"      # placeholder for the scratch directory in exclusion patter
 
 def model_check(steps, timeout=3000):
     cfg = open(f"{tlc.SPEC_DIR}/MC_Scan_mc.cfg").read().replace("MaxSteps = 6", f"MaxSteps = {steps}")
-    r = tlc.run("MC_Scan.tla", tlc.write_cfg(cfg), workers=16, timeout=timeout)
+    r = tlc.run("MC_Scan.tla", tlc.write_cfg(cfg), workers=16, timeout=timeout, coverage=True)
     tlc.require_ok(r, "model checking MC_Scan")
+    tlc.require_actions_taken(r, ["DoMkDir", "DoMkFile", "DoAddStmt"], "MC_Scan")
     # vacuity guard: without the 'names above the limit' restriction the verdict law must fail somewhere
     g = tlc.run("MC_Scan.tla", tlc.write_cfg(cfg.replace("INVARIANT QuotientVerdict\n", "INVARIANT QuotientVerdictUnrestricted\n")),
                 workers=16, timeout=timeout)
